@@ -569,8 +569,8 @@ def write_text(I, path, rng):
                     else:
                         vals[n] = repr(v)
                         skip = False
-                if skip and rng.random() < 0.5:
-                    continue              # an all-missing combination may simply be absent from the file
+                # (every combination is written: dropping rows could remove a coordinate from the file
+                #  altogether and change the dimensions; sparse files are C09's subject)
                 rows.append(" ".join(vals[c] for c in order))
     rng.shuffle(rows)
     with open(path, "w") as f:
